@@ -791,6 +791,13 @@ def F44():
         res.append(b.check_pow())
     return any(res), "check_pow of a header without work and bits ffffff20 / ffff0022 / 00008003 -> %s (consensus: negative / overflow / negative, never valid)" % res
 
+def F45():
+    """generate_shares with threshold 1 and n = 5"""
+    from buidl.shamir import ShareSet
+    m = "abandon " * 11 + "about"
+    sh = ShareSet.generate_shares(m, 1, 5)
+    return len(sh) != 5 or not all(ShareSet.recover_mnemonic([x]) == m for x in sh), "generate_shares(m, 1, 5) returns %d share(s)" % len(sh)
+
 def K1():
     from buidl.op import op_2rot
     st = [b"1", b"2", b"3", b"4", b"5", b"6"]
